@@ -3,6 +3,7 @@
 package main
 
 import (
+	"encoding/json"
 	"flag"
 	"fmt"
 	"os"
@@ -26,8 +27,18 @@ func main() {
 	goarch := flag.String("goarch", "", "GOARCH override")
 	dump := flag.String("dump", "", "debug: print normalised SSA of the named function")
 	genp := flag.Bool("genparams", false, "development: print the frozen parameter-name table")
+	explain := flag.Bool("explain", false, "print the per-property explanations and rule lists as JSON (used by gen_manifest.py)")
 	genk := flag.Bool("genknown", false, "development: print the table of known functions (names and flattened signatures)")
 	flag.Parse()
+	if *explain {
+		out := map[string]interface{}{}
+		for _, id := range rules.IDs() {
+			out[id] = map[string]interface{}{"explanation": rules.Get(id).Explanation}
+		}
+		b, _ := json.MarshalIndent(out, "", " ")
+		fmt.Println(string(b))
+		return
+	}
 	if *evdir == "" {
 		*evdir = filepath.Join(*verif, "evidence")
 	}
